@@ -120,6 +120,14 @@ def gen_equiv(seed: int, profile: str):
         pair(a, prev)
     elif kind == "filter_split":
         preds = [g.ewise(cur, "bool", r.randint(1, 3)) for _ in range(r.randint(2, 3))]
+        keys0 = g.order_keys(cur, total=True) if r.random() < 0.3 else None
+        if keys0 is not None:
+            # behind `slice_head >> alias()`: the first filter makes the alias a subquery; the second one must find the table as the
+            # subquery left it (one call with both predicates and one call per predicate are the same pipeline)
+            ar0 = S(id=T(), op="arrange", src=t, by=keys0)
+            sl0 = S(id=T(), op="slice_head", src=ar0, n=r.choice([2, 3, 4]), offset=0)
+            t = S(id=T(), op="alias", src=sl0, keep_col_refs=True)
+            g.features.add("filter_split_behind_subquery")
         a = S(id=T(), op="filter", src=t, preds=preds)
         prev = t
         for p in preds:
